@@ -571,6 +571,11 @@ func C09sio(c *vh.Ctx) {
 // C15: reported changes suffice to persist a crew and restart it anywhere.
 func C15(c *vh.Ctx) {
 	if c.Replay != "" {
+		var tc c15TimersCase
+		if c.LoadReplay(&tc) == nil && tc.Family != "" {
+			c15Timers(c)
+			return
+		}
 		var cs c15Case
 		if c.LoadReplay(&cs) == nil {
 			c.Eval()
@@ -586,7 +591,8 @@ func C15(c *vh.Ctx) {
 		depth = c15DepthOverride
 	}
 	c.Bound("history_max", depth)
-	c.Rule(fmt.Sprintf("breadth-first search over histories of crew operations on a real sio.Crew (fresh crew + replay per successor; states deduplicated by live machines, captain state, shadow store and change cache): alphabet of %d operations (create m1/m2/boss with specs X/Y/Z, replace m1's state (also by one of 13 kB), replace m1's spec, delete m1, messages to all / to m1, a message that makes the actions of X and Y fail (X handles it with actionErrorBranches, Y with an actionErrorNode: the error settings are part of the specification source), a machine that deletes and re-creates m1 within one ProcessMsg, deletion of m2 by the host and by a machine, a captain operation that fails, captain messages with two updates of which the later one fails (also addressed to the machine the first one updates), and *restart*: the crew is replaced by one rebuilt from the shadow store, so every message boundary is a crash-and-restart point and the search goes on from the restarted crew), depth up to the bound. Invariant in every state: a store that folded every Result.Changed (as sio.Stdio does) equals the live crew (node, bindings, spec; deleted machines absent; a stored machine without state is start/{}). The same histories are also replayed with the repository's own consumer as the host - sio.Stdio folding Result.Changed into its state map and writing the state file after every message, restart = siostd's boot path reading that file back - and after every message the file must describe the live crew. Differential in every state: a crew rebuilt from that store through SetMachine (the siostd boot path) and the original give equal emissions, equal next states and equal stores (each crew's reported changes folded into its own copy of the store, which must also equal that crew) on %d continuations of length <= 2.", len(c15Ops), len(c15Conts)))
+	c.Rule(fmt.Sprintf("breadth-first search over histories of crew operations on a real sio.Crew (fresh crew + replay per successor; states deduplicated by live machines, captain state, shadow store and change cache): alphabet of %d operations (create m1/m2/boss with specs X/Y/Z, replace m1's state (also by one of 13 kB), replace m1's spec, delete m1, messages to all / to m1, a message that makes the actions of X and Y fail (X handles it with actionErrorBranches, Y with an actionErrorNode: the error settings are part of the specification source), a machine that deletes and re-creates m1 within one ProcessMsg, deletion of m2 by the host and by a machine, a captain operation that fails, captain messages with two updates of which the later one fails (also addressed to the machine the first one updates), and *restart*: the crew is replaced by one rebuilt from the shadow store, so every message boundary is a crash-and-restart point and the search goes on from the restarted crew), depth up to the bound. Invariant in every state: a store that folded every Result.Changed (as sio.Stdio does) equals the live crew (node, bindings, spec; deleted machines absent; a stored machine without state is start/{}). The same histories are also replayed with the repository's own consumer as the host - sio.Stdio folding Result.Changed into its state map and writing the state file after every message, restart = siostd's boot path reading that file back - and after every message the file must describe the live crew. Differential in every state: a crew rebuilt from that store through SetMachine (the siostd boot path) and the original give equal emissions, equal next states and equal stores (each crew's reported changes folded into its own copy of the store, which must also equal that crew) on %d continuations of length <= 2. Timers machine: 0/1/2/8/9/17 timers made (all far in the future), then all / all but one / none of them cancelled, then 0-2 more made; after every message the store lists exactly the timers pending in the live crew, which are exactly those made and not cancelled, and a crew rebuilt from the store at the end has the same ones pending.", len(c15Ops), len(c15Conts)))
+	c15Timers(c)
 	seen := map[string]bool{}
 	reported := map[string]bool{}
 	frontier := [][]string{{}}
